@@ -209,74 +209,88 @@ def run(rep, tier, seed, keep=False):
                             continue
                     except Exception:
                         continue
-                    data = {}
-                    args = []
-                    for i, sp in enumerate(spec):
-                        if sp[0] == 'src':
-                            data['a%d' % i] = copy.deepcopy(mv)
-                            args.append('$.a%d' % i)
-                        elif sp[0] == 'text':
-                            args.append(sp[1])
-                        elif sp[0] == 'val':
-                            v = sp[1]
-                            if isinstance(v, list):
-                                v = [1, 2]
-                            data['a%d' % i] = copy.deepcopy(v)
-                            args.append('$.a%d' % i)
-                        else:
-                            args.append(None)
-                    spec2 = [('text', a) if a is not None else ('omit',) for a in args]
-                    text, _b = c08.render(name, fd, spec2)
-                    if text is None or (text, repr(data)) in texts:
-                        continue
-                    texts.add((text, repr(data)))
-                    try:
-                        st = eng_(text)
-                    except Exception:
-                        continue
-                    d0 = copy.deepcopy(data)
-                    hctx = cx.create_child_context()
-                    rec.new_trace()
-                    rec.begin(1, hctx)
-                    signal.signal(signal.SIGALRM, c08._alarm)
-                    signal.setitimer(signal.ITIMER_REAL, 2.0)
-                    try:
-                        got = ('ok', st.evaluate(data=data, context=hctx))
-                    except c08.Alarm:
-                        got = ('exc', 'timeout')
-                    except Exception as ex:  # noqa
-                        got = ('exc', type(ex).__name__)
-                    finally:
-                        signal.setitimer(signal.ITIMER_REAL, 0)
-                    rec.end(1)
-                    if got == ('exc', 'timeout'):
-                        ntimeout += 1
-                        continue
-                    nsweep += 1
-                    rep.evaluations += 1
-                    case = {'text': text, 'data': repr(d0), 'convertInputData': conv, 'convertOutputData': conv_out}
-                    if not deep_eq(data, d0):
-                        mutated += 1
-                        rep.violation('C09/data-mutated/%s' % name, '%s (convertInputData=%s) changed host data %r -> %r' % (text, conv, d0, data), case)
-                        continue
-                    if got[0] == 'ok':
-                        scramble(got[1])
-                        if not deep_eq(data, d0):
-                            rep.violation('C09/result-aliases-host-data/%s' % name, '%s (convertInputData=%s): mutating the result changed host data %r -> %r' % (text, conv, d0, data), case)
+                    # the other arguments: the typed corpus value, and values that name something the data really holds (a key, an
+                    # element, an index) - functions that change "their copy" only do so when there is something to change
+                    ps_ = c08.visible_params(fd)
+                    for alt in (None, 'a', ['a', 'b'], 0, 1):
+                        data = {}
+                        args = []
+                        used_alt = False
+                        for i, sp in enumerate(spec):
+                            if sp[0] == 'src':
+                                data['a%d' % i] = copy.deepcopy(mv)
+                                args.append('$.a%d' % i)
+                            elif sp[0] == 'text':
+                                args.append(sp[1])
+                            elif sp[0] == 'val':
+                                v = sp[1]
+                                if isinstance(v, list):
+                                    v = [1, 2]
+                                if alt is not None:
+                                    try:
+                                        if i < len(ps_) and ps_[i].value_type.check(alt, cx, eng_) and alt != v:
+                                            v = alt
+                                            used_alt = True
+                                    except Exception:
+                                        pass
+                                data['a%d' % i] = copy.deepcopy(v)
+                                args.append('$.a%d' % i)
+                            else:
+                                args.append(None)
+                        if alt is not None and not used_alt:
                             continue
-                        # re-evaluation with equal data gives an equal result
+                        spec2 = [('text', a) if a is not None else ('omit',) for a in args]
+                        text, _b = c08.render(name, fd, spec2)
+                        if text is None or (text, repr(data)) in texts:
+                            continue
+                        texts.add((text, repr(data)))
                         try:
-                            got2 = ('ok', st.evaluate(data=copy.deepcopy(d0), context=cx.create_child_context()))
-                            again = ('ok', st.evaluate(data=copy.deepcopy(d0), context=cx.create_child_context()))
-                            if not deep_eq(got2[1], again[1]):
-                                rep.violation('C09/re-evaluation-differs/%s' % name, '%s: %r then %r' % (text, got2[1], again[1]), case)
+                            st = eng_(text)
                         except Exception:
-                            pass
-                    if snap_chain(cx) != chain0:
-                        rep.violation('C09/host-context-changed/%s' % name, '%s changed the host context chain' % text, case)
-                        chain0 = snap_chain(cx)
-                    if nsweep % 97 == 1:
-                        rep.sample({'text': text, 'data': repr(d0), 'convertInputData': conv, 'outcome': got[0]})
+                            continue
+                        d0 = copy.deepcopy(data)
+                        hctx = cx.create_child_context()
+                        rec.new_trace()
+                        rec.begin(1, hctx)
+                        signal.signal(signal.SIGALRM, c08._alarm)
+                        signal.setitimer(signal.ITIMER_REAL, 2.0)
+                        try:
+                            got = ('ok', st.evaluate(data=data, context=hctx))
+                        except c08.Alarm:
+                            got = ('exc', 'timeout')
+                        except Exception as ex:  # noqa
+                            got = ('exc', type(ex).__name__)
+                        finally:
+                            signal.setitimer(signal.ITIMER_REAL, 0)
+                        rec.end(1)
+                        if got == ('exc', 'timeout'):
+                            ntimeout += 1
+                            continue
+                        nsweep += 1
+                        rep.evaluations += 1
+                        case = {'text': text, 'data': repr(d0), 'convertInputData': conv, 'convertOutputData': conv_out}
+                        if not deep_eq(data, d0):
+                            mutated += 1
+                            rep.violation('C09/data-mutated/%s' % name, '%s (convertInputData=%s) changed host data %r -> %r' % (text, conv, d0, data), case)
+                            continue
+                        if got[0] == 'ok':
+                            scramble(got[1])
+                            if not deep_eq(data, d0):
+                                rep.violation('C09/result-aliases-host-data/%s' % name, '%s (convertInputData=%s): mutating the result changed host data %r -> %r' % (text, conv, d0, data), case)
+                                continue
+                            # re-evaluation with equal data gives an equal result
+                            try:
+                                got2 = ('ok', st.evaluate(data=copy.deepcopy(d0), context=cx.create_child_context()))
+                                again = ('ok', st.evaluate(data=copy.deepcopy(d0), context=cx.create_child_context()))
+                                if not deep_eq(got2[1], again[1]):
+                                    rep.violation('C09/re-evaluation-differs/%s' % name, '%s: %r then %r' % (text, got2[1], again[1]), case)
+                            except Exception:
+                                pass
+                        if snap_chain(cx) != chain0:
+                            rep.violation('C09/host-context-changed/%s' % name, '%s changed the host context chain' % text, case)
+                            chain0 = snap_chain(cx)
+                        if nsweep % 97 == 1:
+                            rep.sample({'text': text, 'data': repr(d0), 'convertInputData': conv, 'outcome': got[0]})
         print('phase sweep done %.1f, events %d' % (time.time() - _t0, len(rec.events)), file=sys.stderr)
         # the pool too (let/def/with/unpack/as write into their own child contexts)
         for conv in (True, False):
